@@ -181,6 +181,13 @@ def att_direct_lines():
         out.append(('int $%d' % v, 'int', 'i', v))
         out.append(('shll $%d, %%eax' % v, 'shl', 'r32,i', v))
         out.append(('enter $%d, $1' % v, 'enter', 'i,i', v))
+    # symbol differences with an addend, as PIC / jump-table code writes them (sd_foo and sd_bar are absolute symbols of value 0)
+    for n in (8, 130, 300):
+        for sd in ('(sd_foo-sd_bar)-%d' % n, '(sd_foo-sd_bar)+%d' % n, 'sd_foo-sd_bar-%d' % n, 'sd_foo-sd_bar+%d' % n, '%d+sd_foo-sd_bar' % n, '-%d+sd_foo-sd_bar' % n, 'sd_foo-%d' % n, 'sd_foo+%d' % n):
+            out.append(('movl %s(%%ebx), %%eax' % sd, 'mov', 'symdiff:m32,r32', None))
+            out.append(('leal %s(%%esi,%%ecx,4), %%edx' % sd, 'lea', 'symdiff:m0,r32', None))
+            out.append(('pushl $%s' % sd, 'push', 'symdiff:i', None))
+            out.append(('addl $%s, %%eax' % sd, 'add', 'symdiff:i,r32', None))
     return out
 
 
